@@ -6,7 +6,7 @@ GEN = 'C17'
 MODEL_FN = 'Model/RecvStop.v:start_call / stop_call (error discipline), sstep (Stop protocol)'
 RULE = ('call sequences: EVERY sequence over {Start, Stop} of length 1..6 (126 sequences) x receiver configurations '
         '(sockets, workers, queue {0,8,1000}, blocking) with and without traffic running during the calls: every call returns '
-        'within 3 s with exactly the error/no-error the model predicts, goroutine count returns to the baseline, the port can be '
+        'within 3 s with exactly the error/no-error the model predicts, after every successful Start under traffic the decoder is called again within 2 s (also after restarts), goroutine count returns to the baseline, the port can be '
         'bound again; queued-before-Stop: 100..600 datagrams read and queued behind decoders that are released only after Stop '
         'was called: when Stop returns every datagram read has been decoded; end to end: the goflow2 binary built from /repo '
         'listening on netflow://, N NetFlow v5 datagrams, SIGTERM -> exit status 0 and one JSON line per flow record in the file. '
